@@ -201,6 +201,7 @@ class StepPlan:
     ret_time: Any = None
     writes: List[str] = field(default_factory=list)
     problems: List[str] = field(default_factory=list)     # constructs outside the enumerated idioms
+    violations: List[str] = field(default_factory=list)   # derived contradictions found while executing
     literals: List[str] = field(default_factory=list)
 
 
@@ -449,8 +450,8 @@ class StepExec:
             if cond is not None and cond[0] == "bin" and cond[1] in ("<", "!=", "<="):
                 bound = self.num(self.resolve(cond[3]))
                 if cond[1] == "<=":
-                    self.plan.problems.append("k-loop runs while count <= bound (one extra step)")
-                    bound = None
+                    self.plan.violations.append("the k-loop runs while count <= bound: one step more than floor(|target - held| / max) is taken, "
+                                                "overshooting the target")
             self.run_loop(bound, cppast.show(cond) if cond else "?", body)
             return
         if k == "for_range":
@@ -621,6 +622,8 @@ def check_stepplan(ctx: core.Ctx, plan: StepPlan, file: str, func: str, tag: str
     where = f"{file}:{func} [{tag}, {plan.scenario}]"
     for p in plan.problems:
         ctx.error(f"{where}: {p}")
+    for v in plan.violations:
+        ctx.oblige("TEMPLATE", where, v[:60], False, file=file, func=func, construct=f"plan violation {plan.scenario}: {v[:50]}", msg=v)
     loops = [p for p in plan.predicts if p.in_loop is not None]
     rems = [p for p in plan.predicts if p.in_loop is None]
     if len(loops) != 1 or len(rems) != 1:
